@@ -48,6 +48,8 @@ structure D where
   out : Array String := #[]
   chainLeft : Nat := 0
   chainArg : Nat := 0
+  refMode : Bool := false    -- generator<T&>: the future of a call refers into the frame
+  futFresh : Bool := false   -- no access has resumed the body since the call that produced the current future
 
 def isSubVal : Ev → Bool
   | .sub (.val _) => true
@@ -116,6 +118,12 @@ def resStr : Res → String
   | .isEnd b => " " ++ (if b then "1" else "0")
   | .active b => " " ++ (if b then "1" else "0")
   | .destroyed => ""
+
+/-- what `future::operator bool` makes of the future's content: a value or an exception is "has a value" -/
+def hasStr : Res → String
+  | .item .fin => " false"
+  | .item _ => " true"
+  | other => resStr other
 
 /-- `for (int &v : gen)`: `it = begin(); while (it != end()) { *it; ++it; }` -/
 def forLoop (d : D) (acc : String) (b : Bool) : Nat → D × String
@@ -221,6 +229,8 @@ def doLine (d : D) (ws : List String) : D × String :=
   | "call" :: _ => let (d', r) := prim d (.call (argOf ws)); (d', "call" ++ resStr r)
   | ["fwait"] => let (d', r) := fwaitOp d (fuelOf d); (d', "fwait" ++ resStr r)
   | ["fget"] => let (d', r) := prim d .futGet; (d', "fget" ++ resStr r)
+  | ["fbool"] => let (d', r) := fwaitOp d (fuelOf d); (d', "fbool" ++ hasStr r)   -- `if (f)`: waits like f.wait(), reads only "has a result"
+  | ["fnot"] => let (d', r) := fwaitOp d (fuelOf d); (d', "fnot" ++ hasStr r)     -- `if (!f)`, negation undone
   | ["fawait"] => let (d', r) := prim d .futAwait; (d', "fawait" ++ resStr r)
   | ["fhas"] => let (d', r) := prim d .futHas; (d', "fhas" ++ resStr r)
   | ["begin"] => let (d', r) := syncOp d .itBegin; (d', "begin" ++ resStr r)
@@ -247,34 +257,61 @@ def doLine (d : D) (ws : List String) : D × String :=
 def finishLine (d : D) (head : String) : D × String :=
   ({ d with out := #[] }, withEvents head d.out.toList)
 
-partial def loop (lines : Array String) (i : Nat) (mode : Bool) (st : Option D) : IO Unit := do
+def iterOps : List String := ["begin", "beginc", "inc", "pinc", "deref", "arrow", "isend", "for"]
+
+/-- one input line. `noIter`: generator<T&> has no usable iterator (generator.h:68 names `generator_iterator<generator<T>>`, so
+`begin()` / `end()` / range-for do not compile for it); the harness answers the iterator operations exactly as for a generator with
+an argument type (`n/a`, `noit`), so they are answered on a copy of the state that says so and the state is left unchanged. -/
+def accessOps : List String :=
+  ["next", "nnext", "anext", "sub", "subr", "call", "while", "begin", "beginc", "inc", "pinc", "for"]
+
+/-- For generator<T&> the harness does not dereference the future of a call once a later access has resumed the body (the
+reference is over): `fwait` / `fget` / `fawait` then answer `stale`. Pure bookkeeping of the harness, mirrored here. -/
+def doLine' (noIter : Bool) (d : D) (ws : List String) : D × String :=
+  match ws with
+  | w :: _ =>
+      let d := if accessOps.contains w && d.s.alive && d.s.caller == .none then { d with futFresh := false } else d
+      if d.refMode && !d.futFresh && ["fwait", "fget", "fawait"].contains w && d.s.fut != .none then (d, w ++ " stale")
+      else
+        let (d1, line) :=
+          if noIter && iterOps.contains w then
+            let (_, line) := doLine { d with s := { d.s with mode := true } } ws
+            (d, line)
+          else doLine d ws
+        let d2 := if w == "call" && (line == "call pending" || line.startsWith "call ready") then { d1 with futFresh := true } else d1
+        let d3 := if w == "destroy" && line.startsWith "destroy" && !d2.s.alive then { d2 with futFresh := false } else d2
+        (d3, line)
+  | [] => doLine d ws
+
+partial def loop (lines : Array String) (i : Nat) (mode : Bool) (st : Option D) (noIter : Bool := false)
+    (refMode : Bool := false) : IO Unit := do
   if h : i < lines.size then
     let ws := words lines[i]
     match ws, st with
     | ("case" :: id :: m :: _), _ =>
         IO.println s!"case {id}"
-        loop lines (i+1) (m == "a") none
+        loop lines (i+1) (m == "a" || m == "ra") none (m == "rv") (m == "rv" || m == "ra")   -- rv / ra: generator<int&>, generator<int&,int>: same model
     | ("script" :: acts), none =>
         IO.println "script"
-        loop lines (i+1) mode (some { s := init mode (acts.filterMap parseAct) })
+        loop lines (i+1) mode (some { s := init mode (acts.filterMap parseAct), refMode := refMode }) noIter refMode
     | ["end"], some d =>
         let d1 := drain d (fuelOf d)
         let d2 := if d1.s.alive then (prim d1 .destroy).1 else d1
         let (once, multi) := countGuards d2.s
-        let fs := match d2.s.fut with
+        let fs := if d1.refMode && !d1.futFresh && d2.s.fut != .none then "stale" else match d2.s.fut with
           | .none => "none"
           | .pending => "pending"
           | .ready i => itemStr i
         let (_, out) := finishLine d2 s!"end made={d2.s.made} once={once} multi={multi} fut={fs}"
         IO.println out
-        loop lines (i+1) mode none
-    | [], _ => loop lines (i+1) mode st
+        loop lines (i+1) mode none noIter refMode
+    | [], _ => loop lines (i+1) mode st noIter refMode
     | _, some d =>
-        let (d1, head) := doLine d ws
+        let (d1, head) := doLine' noIter d ws
         let (d2, out) := finishLine d1 head
         IO.println out
-        loop lines (i+1) mode (some d2)
-    | _, none => loop lines (i+1) mode st
+        loop lines (i+1) mode (some d2) noIter refMode
+    | _, none => loop lines (i+1) mode st noIter refMode
   else return ()
 
 def main : IO Unit := do
